@@ -59,7 +59,10 @@ def prepare(tier, sd, d):
     sets = simulate.replay_sets(tier, sd, d)
     path = os.path.join(d, "behaviours.json")
     json.dump(sets, open(path, "w"))
-    return {"VERIF_BEHAVIOURS": path}
+    # the real recompute-cache tool of the tree under test (cachetools/*/recompute)
+    tool = os.path.join(d, "bin", "recompute-cache")
+    vlib.build_binary("./cmd/recompute-cache", tool, cwd=vlib.REPO)
+    return {"VERIF_BEHAVIOURS": path, "VERIF_RECOMPUTE_BIN": tool}
 
 
 FAM.prepare = prepare
